@@ -19,6 +19,7 @@ def _linit(ctx, rep):
 
 
 def c01(ctx, rep):
+    rules_cmp.nfkd_before_split(ctx, rep)
     rules_bits.packing(ctx, rep, want=('layout', 'inverse'))
     rules_api.encode_api(ctx, rep)
     rules_api.decoders(ctx, rep)
@@ -36,10 +37,14 @@ def c01(ctx, rep):
 
 def c02(ctx, rep):
     rules_bits.mul2_and_horner(ctx, rep)
+    rules_cmp.counter_pairing(ctx, rep)
+    rules_cmp.skip_normalised(ctx, rep)
+    rules_cmp.dispatch(ctx, rep)
     rules_api.decoders(ctx, rep)
     rules_api.load_api(ctx, rep)
     rules_api.create(ctx, rep)
     rules_api.crypt(ctx, rep)
+    rules_api.detection(ctx, rep)
     return ('bit-provenance abstract interpretation derives gf_elem_mul2 and gf_poly_eval as GF(2)-linear maps for all inputs at once; '
             'rank checks on the extracted matrices give single-error and transposition detection; exit summaries show the check is on every '
             'path that hands out a parsed seed and that create/crypt store a value that makes the form vanish')
@@ -63,9 +68,9 @@ def c04(ctx, rep):
 
 
 def c05(ctx, rep):
+    rules_bits.mul2_and_horner(ctx, rep)
     rules_api.encode_api(ctx, rep)
     rules_api.decoders(ctx, rep)
-    rules_bits.mul2_and_horner(ctx, rep)
     return ('coin enters only coefficient 1, unmasked, on both sides (bitflow exit summaries of encode and of both decoders); L^1 is '
             'invertible (matrices extracted from the code), so a non-zero coin difference always changes the evaluation')
 
@@ -79,9 +84,10 @@ def c06(ctx, rep):
 
 
 def c09(ctx, rep):
+    rules_cmp.nfkd_before_split(ctx, rep)
+    rules_cmp.dispatch(ctx, rep)
     rules_api.decoders(ctx, rep)
     rules_api.detection(ctx, rep)
-    rules_cmp.dispatch(ctx, rep)
     rep.assumptions += ['NOT decided: token-boundary behaviour of str_split over all strings (empty tokens, 17th token, single trailing space): a loop '
                         'over an unbounded string with data-dependent exits; only its memory safety (C14) and that its result is compared with 16 are decided']
     return ('exit summaries of both decoders (status precedence, sibling agreement) and of the detection loop over all 2^10 per-language '
@@ -332,7 +338,7 @@ def run(pid, tier, seed, replay=None):
     from .frontend import AnalysisBroken
     try:
         expl = ent['fn'](ctx, rep)
-    except AnalysisBroken as e:
+    except Exception as e:
         if not rep.violations:
             raise
         # a rule already produced a violation with a named construct; a later rule could not be evaluated on this tree
